@@ -235,4 +235,56 @@ theorem C11A_records_roundtrip (idKey : Nat) (nodes : List (Node × Attrs)) (hnd
 example : importRecords 9 (nodeRecords 9 [(3, [(0, 5), (1, 6)]), (4, [])]) =
     [(.node 3, [(0, .attr 5), (1, .attr 6)]), (.node 4, [])] := by decide
 
+/-! ### the record is a dictionary: distinct keys stay distinct -/
+
+theorem dictSet_keys {β} (d : List (Nat × β)) (k : Nat) (v : β) :
+    (dictSet d k v).map (·.1) = if d.any (fun e => e.1 == k) then d.map (·.1) else d.map (·.1) ++ [k] := by
+  unfold dictSet
+  split
+  · rename_i h; clear h
+    induction d with
+    | nil => rfl
+    | cons e r ih =>
+      simp only [List.map_cons]
+      cases hb : (e.1 == k)
+      · simp only [Bool.false_eq_true, if_false]; rw [ih]
+      · simp only [if_true]; rw [ih]; simp only [beq_iff_eq] at hb; rw [hb]
+  · simp
+
+/-- the keys of the record written for a node are pairwise distinct when the attribute names are (it is a dictionary),
+    and the id key is among them -/
+theorem C11A_record_keys (idKey : Nat) (n : Node) (attrs : Attrs) (hnd : (attrs.map (·.1)).Nodup) :
+    ((nodeRecord idKey n attrs).map (·.1)).Nodup ∧ idKey ∈ (nodeRecord idKey n attrs).map (·.1) := by
+  unfold nodeRecord
+  rw [dictSet_keys]
+  have hm : (attrs.map (fun e => (e.1, RecVal.attr e.2))).map (·.1) = attrs.map (·.1) := by
+    simp [List.map_map, Function.comp_def]
+  split
+  · rename_i h
+    rw [hm]
+    refine ⟨hnd, ?_⟩
+    obtain ⟨x, hx, hk⟩ := List.any_eq_true.mp h
+    obtain ⟨y, hy, rfl⟩ := List.mem_map.mp hx
+    simp only [beq_iff_eq] at hk
+    exact List.mem_map.mpr ⟨y, hy, hk⟩
+  · rename_i h
+    rw [hm]
+    refine ⟨?_, by simp⟩
+    rw [List.nodup_append]
+    refine ⟨hnd, by simp, ?_⟩
+    intro a ha b hb
+    simp only [List.mem_singleton] at hb
+    subst hb
+    intro hab
+    subst hab
+    apply h
+    obtain ⟨y, hy, hk⟩ := List.mem_map.mp ha
+    exact List.any_eq_true.mpr ⟨(y.1, RecVal.attr y.2), List.mem_map.mpr ⟨y, hy, rfl⟩, by simpa using hk⟩
+
+/-- a node named by two records keeps the union of their attributes, the later record winning on a shared name
+    (`add_node(n, **attrs)` updates): concrete instance, by evaluation -/
+theorem C11A_repeated_id_merges :
+    importRecords 0 [[(0, .node 4), (1, .attr 5), (2, .attr 6)], [(2, .attr 7), (0, .node 4), (3, .attr 8)]] =
+      [(.node 4, [(1, .attr 5), (2, .attr 7), (3, .attr 8)])] := by decide
+
 end Dynetx
